@@ -22,7 +22,8 @@ CONSTANTS MaxBlocks,      \* forms family: block sequences up to this length (pr
           MaxBlocksAll,   \* ... up to this length for every profile and kind
           ExtraKinds,     \* block kinds of the sequences one block longer than MaxBlocks (profile 1, cff)
           ExtraKindsAll,  \* ... one block longer than MaxBlocksAll (every profile and kind)
-          BigCounts       \* subroutine counts for the bias family
+          BigCounts,      \* subroutine counts for the bias family
+          SeacFull        \* seac charset family: every pair of codes (else: present x present + each missing code once per side)
 
 VARIABLES ph, cs, m
 vars == <<ph, cs, m>>
@@ -200,9 +201,13 @@ FeatOf(fam, tag, ls, gs) ==
                                  THEN "cff2-more-than-48-operands" ELSE tag)
   ELSE IF fam = "seac" THEN tag.feat
   ELSE IF ls # <<>> THEN "lsubr" ELSE IF gs # <<>> THEN "gsubr" ELSE "nosubr"
-Case(fam, tag, kind, prog, ls, gs, nL, nG, comps, charset, var, path, small) ==
+\* sf: the font of a seac case - charset, number of glyphs, glyph id of the accented glyph, whether the
+\* program is well formed (both components in the font), classes of the base's and the accent's SID
+IsoCs == [fmt |-> "iso", ranges |-> <<>>]
+NoSeac == [cs |-> IsoCs, n |-> 0, gid |-> 0, wf |-> TRUE, cls |-> <<>>]
+Case(fam, tag, kind, prog, ls, gs, nL, nG, comps, sf, var, path, small) ==
   [fam |-> fam, tag |-> IF fam = "seac" THEN tag.text ELSE tag, feat |-> FeatOf(fam, tag, ls, gs), kind |-> kind, prog |-> prog, lsubrs |-> ls, gsubrs |-> gs,
-   nL |-> nL, nG |-> nG, comps |-> comps, charset |-> charset,
+   nL |-> nL, nG |-> nG, comps |-> comps, charset |-> sf.cs, nGlyphs |-> sf.n, gid |-> sf.gid, wf |-> sf.wf, scls |-> sf.cls,
    regions |-> var.regions, tuple |-> var.tuple, dvs |-> var.dvs, path |-> path, small |-> small]
 
 \* the font context the machine needs, from a case
@@ -211,7 +216,7 @@ FC(c) == [kind |-> IF IsCff2(c.kind) THEN "cff2" ELSE "cff", nG |-> c.nG, nL |->
           gsubrs |-> [k \in 1 .. Len(c.gsubrs) |-> Sub(c.gsubrs[k])],
           lsubrs |-> [k \in 1 .. Len(c.lsubrs) |-> Sub(c.lsubrs[k])],
           comps |-> [k \in 1 .. Len(c.comps) |-> Sub(c.comps[k])],
-          seacOk |-> c.kind = "cff",
+          seacOk |-> c.kind = "cff", charset |-> c.charset, nGlyphs |-> c.nGlyphs,
           regions |-> c.regions, tuple |-> c.tuple, dvs |-> c.dvs]
 
 CallTok(idx, cnt, global) == <<N((idx - Bias(cnt)) * ONE), O(IF global THEN "callgsubr" ELSE "callsubr")>>
@@ -222,7 +227,7 @@ FormsCases(kind, p, kinds) ==
       path == <<ct>> IN
   IF ~PathInDom(path) THEN {}
   ELSE { Case("forms", "", kind, App("rmoveto", ct.mv) \o AppsTokens(f) \o END(kind),
-              <<>>, <<>>, 0, 0, <<>>, "iso", NoVar, path, FALSE) : f \in FormsOneRun(ct.segs) }
+              <<>>, <<>>, 0, 0, <<>>, NoSeac, NoVar, path, FALSE) : f \in FormsOneRun(ct.segs) }
 
 \* ---- family "wrap": width, move form, hints and masks, subroutine factoring
 WrapPaths ==
@@ -294,7 +299,7 @@ WrapCase(kind, w, mf, h, fk, path, pname) ==
       L(i, t) == [i |-> i, t |-> t]
       mk(prog, ls, gs) ==
         {Case("wrap", pname \o "/" \o h \o "/" \o fk \o (IF w THEN "/w" ELSE ""), kind, prog, ls, gs, nL, nG,
-              <<>>, "iso", NoVar, path, TRUE)}
+              <<>>, NoSeac, NoVar, path, TRUE)}
       all == ch.pre \o ch.mv1 \o ch.b1 \o ch.mid \o ch.rest \o END(kind) IN
   CASE fk = "none" -> mk(all, <<>>, <<>>)
     [] fk = "Lop" -> mk(ch.pre \o ch.mv1 \o CallTok(iL, nL, FALSE) \o ch.mid \o ch.rest \o END(kind),
@@ -320,7 +325,7 @@ WrapCase(kind, w, mf, h, fk, path, pname) ==
          {Case("wrap", pname \o "/" \o h \o "/deep10" \o (IF w THEN "/w" ELSE ""), kind,
                ch.pre \o ch.mv1 \o CallTok(0, n10, FALSE) \o ch.mid \o ch.rest \o END(kind),
                [j \in 1 .. 5 |-> lsub(j - 1)], [j \in 1 .. 5 |-> gsub(j - 1)], n10, n10,
-               <<>>, "iso", NoVar, path, TRUE)}
+               <<>>, NoSeac, NoVar, path, TRUE)}
     \* the end of the glyph (with endchar for CFF) lives in a subroutine
     [] fk = "tail" -> mk(ch.pre \o ch.mv1 \o ch.b1 \o CallTok(iL, nL, FALSE),
                          <<L(iL, ch.mid \o ch.rest \o END(kind))>>, <<>>)
@@ -350,26 +355,62 @@ BiasCases(kind, cnt, global) ==
          IF global THEN <<>> ELSE <<[i |-> i, t |-> body \o RET(kind)]>>,
          IF global THEN <<[i |-> i, t |-> body \o RET(kind)]>> ELSE <<>>,
          IF global THEN 1 ELSE cnt, IF global THEN cnt ELSE 1,
-         <<>>, "iso", NoVar, path, TRUE) : i \in idxs }
+         <<>>, NoSeac, NoVar, path, TRUE) : i \in idxs }
 
 \* ---- family "seac": endchar with four arguments builds an accented character from two glyphs
-\* named by their StandardEncoding codes; each component is a whole charstring of its own
+\* named by their StandardEncoding codes; each component is a whole charstring of its own.
+\* The codes are resolved code -> SID (StandardEncoding) -> glyph id (charset) by the machine
+\* (Type2!SeacGid); the generator lays the font out the other way round - it puts a glyph at the
+\* position its SID has in the flattened charset (Type2!CharsetSids) - so that FormOK compares the two.
+RECURSIVE PathEnd(_, _, _, _)
+PathEnd(path, i, x, y) ==            \* the current point after the path
+  IF i > Len(path) THEN <<x, y>>
+  ELSE LET c == path[i]
+           ex == [k \in 1 .. Len(c.segs) |-> IF c.segs[k].t = "L" THEN c.segs[k].d[1]
+                                             ELSE c.segs[k].d[1] + c.segs[k].d[3] + c.segs[k].d[5]]
+           ey == [k \in 1 .. Len(c.segs) |-> IF c.segs[k].t = "L" THEN c.segs[k].d[2]
+                                             ELSE c.segs[k].d[2] + c.segs[k].d[4] + c.segs[k].d[6]]
+           sum[k \in 0 .. Len(c.segs)] == IF k = 0 THEN <<0, 0>> ELSE <<sum[k - 1][1] + ex[k], sum[k - 1][2] + ey[k]>> IN
+       PathEnd(path, i + 1, x + c.mv[1] + sum[Len(c.segs)][1], y + c.mv[2] + sum[Len(c.segs)][2])
+\* the accented glyph: the base at the origin, then the accent with its origin at (adx, ady)
+SeacPath(bpath, apath, adx, ady) ==
+  LET e == PathEnd(bpath, 1, 0, 0) IN
+  bpath \o <<[mv |-> <<adx + apath[1].mv[1] - e[1], ady + apath[1].mv[2] - e[2]>>, segs |-> apath[1].segs]>>
+        \o Tail(apath)
+SeacOuter(ow, adx, ady, codes) ==
+  (IF ow THEN <<N(55 * ONE)>> ELSE <<>>) \o <<N(adx), N(ady), N(codes[1] * ONE), N(codes[2] * ONE), O("endchar")>>
+\* glyph id by position in the flattened charset (0: not there)
+GidByPos(chs, n, sid) == PosIn(CharsetSids(chs, n), sid, 1) - 1
+
+\* where a SID sits in the charset (vacuity classes, computed here, counted by the driver)
+SidClass(chs, n, sid) ==
+  IF SidToGid(chs, n, sid) = -1
+  THEN (IF Predefined(chs)
+        THEN (IF PosIn(PredefSids(chs.fmt), sid, 1) - 1 = n THEN "missing-adjacent" ELSE "missing-far")
+        ELSE IF SidToGid(chs, n, sid - 1) >= 1 \/ SidToGid(chs, n, sid + 1) >= 1 THEN "missing-adjacent" ELSE "missing-far")
+  ELSE IF Predefined(chs) THEN (IF SidToGid(chs, n, sid) = n - 1 THEN "predefined|last-glyph" ELSE "predefined|inner")
+  ELSE LET i == RangeIdx(chs.ranges, sid, 1)
+           r == chs.ranges[i] IN
+       IF chs.fmt = "f0" THEN (IF i = 1 THEN "first-entry" ELSE "later-entry")
+       ELSE (IF i = 1 THEN "first-range" ELSE "later-range") \o "|" \o
+            (IF r[2] = 0 THEN "only" ELSE IF sid = r[1] THEN "first" ELSE IF sid = r[1] + r[2] THEN "last" ELSE "inner")
+
+\* (a) the components' own width prefix and hints, two fonts: the predefined ISOAdobe charset with all
+\*     its 229 glyphs (the accented glyph is glyph 200), and a four-glyph font with a format 0 charset
 SeacCases(codes, charset, ow, cw, chint) ==
   LET bpath == <<[mv |-> <<V(1, 0, 1), V(1, 0, 2)>>, segs |-> Blk("Lh", 1, 1) \o Blk("Lv", 1, 2)]>>
       apath == <<[mv |-> <<V(2, 0, 1), V(2, 0, 2)>>, segs |-> Blk("Chv", 1, 1)]>>
       adx == 300 * ONE  ady == 0 - 40 * ONE
+      sb == StdEncSid(codes[1])  sa == StdEncSid(codes[2])
+      chs == IF charset = "iso" THEN IsoCs ELSE [fmt |-> "f0", ranges |-> << <<sa, 0>>, <<300, 0>>, <<sb, 0>> >>]
+      n == IF charset = "iso" THEN 229 ELSE 4
+      gid == IF charset = "iso" THEN 200 ELSE 2
       \* chint stems by hstemhm and chint more left for hintmask: with 5 + 5 stems per component the
       \* mask has two bytes, and a count carried over from the base would make it three
       hint(i) == IF chint > 0 THEN StemsTok(i, chint) \o <<O("hstemhm")>> \o StemsTok(i + chint, chint)
                                    \o <<O("hintmask"), MB(IF chint = 1 THEN <<14>> ELSE <<21, 14>>)>> ELSE <<>>
       comp(path, wv, i) == (IF cw THEN <<N(wv * ONE)>> ELSE <<>>) \o hint(i)
                            \o App("rmoveto", path[1].mv) \o AppsTokens(Compact(path[1].segs)) \o <<O("endchar")>>
-      outer == (IF ow THEN <<N(55 * ONE)>> ELSE <<>>)
-               \o <<N(adx), N(ady), N(codes[1] * ONE), N(codes[2] * ONE), O("endchar")>>
-      \* expected: the base at the origin, the accent displaced by (adx, ady)
-      path == bpath \o <<[mv |-> <<adx + apath[1].mv[1] - (bpath[1].mv[1] + bpath[1].segs[1].d[1]),
-                                    ady + apath[1].mv[2] - (bpath[1].mv[2] + bpath[1].segs[2].d[2])>>,
-                          segs |-> apath[1].segs]>>
       above == charset = "iso" /\ (codes[1] > 228 \/ codes[2] > 228)
       text == (IF above THEN "isoadobe-code-above-228" ELSE "codes-plain")
               \o (IF ow THEN "+width" ELSE "+nowidth") \o (IF cw THEN "+compwidth" ELSE "")
@@ -380,9 +421,97 @@ SeacCases(codes, charset, ow, cw, chint) ==
               ELSE IF chint = 5 THEN "component-own-stem-count"
               ELSE IF cw /\ chint = 0 THEN "component-own-width"
               ELSE "plain" IN
-  { Case("seac", [text |-> text, feat |-> feat], "cff", outer, <<>>, <<>>, 0, 0,
-         <<[i |-> codes[1], t |-> comp(bpath, 31, 0)], [i |-> codes[2], t |-> comp(apath, 32, 11)]>>,
-         charset, NoVar, path, TRUE) }
+  { Case("seac", [text |-> text, feat |-> feat], "cff", SeacOuter(ow, adx, ady, codes), <<>>, <<>>, 0, 0,
+         <<[i |-> GidByPos(chs, n, sb), t |-> comp(bpath, 31, 0)], [i |-> GidByPos(chs, n, sa), t |-> comp(apath, 32, 11)]>>,
+         [cs |-> chs, n |-> n, gid |-> gid, wf |-> TRUE, cls |-> <<SidClass(chs, n, sb), SidClass(chs, n, sa)>>],
+         NoVar, SeacPath(bpath, apath, adx, ady), TRUE) }
+
+\* (b) the charset: formats 0, 1, 2 and the three predefined charsets x where the component's SID sits
+\*     (first / later range; first, last, inner or only SID of its range; not in the font, next to a
+\*     range or far from all) x several StandardEncoding codes.  Every glyph of the font has an outline
+\*     of its own, so that a component taken from another glyph cannot go unnoticed.
+SeacRangeLayouts ==
+  [\* sorted ranges with gaps; nLeft 0 inside
+   A |-> [ranges |-> << <<34, 2>>, <<66, 0>>, <<124, 7>>, <<145, 4>>, <<300, 1>> >>,
+          present |-> {65, 66, 67, 97, 193, 194, 200, 245, 251},           \* A B C a grave acute dieresis dotlessi germandbls
+          missing |-> {68, 64, 98, 202, 241, 48}],                         \* D @ b ring ae (next to a range), zero (far)
+   \* ranges in no order, the first of one glyph; SIDs that follow one range's last SID (or precede its
+   \* first) sit in another, non-neighbouring range
+   B |-> [ranges |-> << <<125, 0>>, <<34, 1>>, <<126, 2>>, <<36, 1>>, <<33, 0>>, <<400, 0>> >>,
+          present |-> {194, 65, 66, 195, 196, 197, 67, 68, 64},            \* acute A B circumflex tilde macron C D @
+          missing |-> {193, 198, 69, 63, 97}],                             \* grave breve E ? (next to a range), a (far)
+   \* a first range of 256 glyphs (the largest a format 1 range holds) / of 300 (format 2 only)
+   C255 |-> [ranges |-> << <<500, 255>>, <<34, 2>>, <<124, 7>>, <<900, 0>> >>,
+             present |-> {65, 67, 193, 200}, missing |-> {68}],
+   C299 |-> [ranges |-> << <<500, 299>>, <<34, 2>>, <<124, 7>>, <<900, 0>> >>,
+             present |-> {65, 67, 193, 200}, missing |-> {68}]]
+RECURSIVE RangesGlyphs(_, _)
+RangesGlyphs(ranges, i) == IF i > Len(ranges) THEN 0 ELSE ranges[i][2] + 1 + RangesGlyphs(ranges, i + 1)
+\* format 0 lists the SID of every glyph: the same fonts with every range of one glyph
+SingleRanges(ranges) == LET f == FlatRanges(ranges, 1) IN [i \in 1 .. Len(f) |-> <<f[i], 0>>]
+SeacFonts ==
+  [f1A |-> [fmt |-> "f1", l |-> "A"], f1B |-> [fmt |-> "f1", l |-> "B"], f1C255 |-> [fmt |-> "f1", l |-> "C255"],
+   f2A |-> [fmt |-> "f2", l |-> "A"], f2B |-> [fmt |-> "f2", l |-> "B"], f2C255 |-> [fmt |-> "f2", l |-> "C255"],
+   f2C299 |-> [fmt |-> "f2", l |-> "C299"], f0A |-> [fmt |-> "f0", l |-> "A"], f0B |-> [fmt |-> "f0", l |-> "B"]]
+SeacFontNames == {"f1A", "f1B", "f1C255", "f2A", "f2B", "f2C255", "f2C299", "f0A", "f0B",
+                  "iso229", "iso126", "expert166", "expert47", "expsub87", "expsub42"}
+\* [cs, n, gid (the accented glyph), present, missing (codes)]
+SeacFont(name) ==
+  IF name \in DOMAIN SeacFonts
+  THEN LET l == SeacRangeLayouts[SeacFonts[name].l]
+           fmt == SeacFonts[name].fmt
+           n == 1 + RangesGlyphs(l.ranges, 1) IN
+       [cs |-> [fmt |-> fmt, ranges |-> IF fmt = "f0" THEN SingleRanges(l.ranges) ELSE l.ranges],
+        n |-> n, gid |-> n - 1, present |-> l.present, missing |-> l.missing]
+  ELSE CASE name = "iso229" -> [cs |-> IsoCs, n |-> 229, gid |-> 200, present |-> {65, 194, 251}, missing |-> {}]
+         \* 126 glyphs: acute (SID 125) is the last glyph, circumflex (126) the first that is not there
+         [] name = "iso126" -> [cs |-> IsoCs, n |-> 126, gid |-> 100, present |-> {65, 193, 194}, missing |-> {195, 251}]
+         \* the Expert charsets hold few StandardEncoding names: space comma hyphen period fraction colon
+         \* semicolon fi fl
+         [] name = "expert166" -> [cs |-> [fmt |-> "expert", ranges |-> <<>>], n |-> 166, gid |-> 100,
+                                   present |-> {32, 45, 164, 59, 175}, missing |-> {65}]
+         \* 47 glyphs: fi is the last glyph, fl the first that is not there
+         [] name = "expert47"  -> [cs |-> [fmt |-> "expert", ranges |-> <<>>], n |-> 47, gid |-> 30,
+                                   present |-> {45, 174}, missing |-> {175, 65}]
+         [] name = "expsub87"  -> [cs |-> [fmt |-> "expsub", ranges |-> <<>>], n |-> 87, gid |-> 50,
+                                   present |-> {32, 44, 46, 164, 58, 174, 175}, missing |-> {65}]
+         [] name = "expsub42"  -> [cs |-> [fmt |-> "expsub", ranges |-> <<>>], n |-> 42, gid |-> 30,
+                                   present |-> {46, 174}, missing |-> {175, 65}]
+
+\* the outline of glyph g of a charset font
+GlyphPath(g) == <<[mv |-> <<(10 + g) * ONE, 0 - (3 + g) * ONE>>, segs |-> <<SegL((5 + g) * ONE, 0), SegL(0, (7 + 2 * g) * ONE)>>]>>
+GlyphToks(g) == App("rmoveto", GlyphPath(g)[1].mv) \o App("hlineto", <<(5 + g) * ONE, (7 + 2 * g) * ONE>>) \o <<O("endchar")>>
+
+SeacSetCodes(name) ==
+  LET f == SeacFont(name)
+      anchor == CHOOSE c \in f.present : \A d \in f.present : c <= d IN
+  IF SeacFull THEN (f.present \cup f.missing) \X (f.present \cup f.missing)
+  ELSE (f.present \X f.present) \cup {<<x, anchor>> : x \in f.missing} \cup {<<anchor, x>> : x \in f.missing}
+
+\* (operator parameters are evaluated once, LET definitions at every reference: the font and the
+\*  glyph ids are threaded through parameters)
+SeacSetBuild(name, f, codes, ow, sb, sa, gb, ga, cb, ca) ==
+  LET wf == gb >= 1 /\ ga >= 1
+      adx == (200 + codes[1]) * ONE  ady == 0 - (20 + codes[2]) * ONE
+      \* small fonts: every glyph; large ones: the components and their neighbours (any other glyph is empty)
+      glyphs == SelectSeq(Ival(1, f.n - 1),
+                          LAMBDA g : g # f.gid /\ (f.n <= 24 \/ (gb >= 1 /\ g >= gb - 1 /\ g <= gb + 1)
+                                                             \/ (ga >= 1 /\ g >= ga - 1 /\ g <= ga + 1)))
+      coarse == IF ~wf THEN "component-missing"
+                ELSE IF Predefined(f.cs) THEN "present"
+                ELSE IF RangeIdx(f.cs.ranges, sb, 1) > 1 \/ RangeIdx(f.cs.ranges, sa, 1) > 1 THEN "later-range"
+                ELSE "first-range" IN
+  { Case("seac", [text |-> "charset-" \o name \o "+" \o cb \o "+" \o ca \o (IF ow THEN "+width" ELSE "+nowidth"),
+                  feat |-> "charset-" \o f.cs.fmt \o "-" \o coarse],
+         "cff", SeacOuter(ow, adx, ady, codes), <<>>, <<>>, 0, 0,
+         [k \in 1 .. Len(glyphs) |-> [i |-> glyphs[k], t |-> GlyphToks(glyphs[k])]],
+         [cs |-> f.cs, n |-> f.n, gid |-> f.gid, wf |-> wf, cls |-> <<cb, ca>>],
+         NoVar, IF wf THEN SeacPath(GlyphPath(gb), GlyphPath(ga), adx, ady) ELSE <<>>, TRUE) }
+SeacSetWith(name, f, codes, ow, sb, sa) ==
+  SeacSetBuild(name, f, codes, ow, sb, sa, GidByPos(f.cs, f.n, sb), GidByPos(f.cs, f.n, sa),
+               SidClass(f.cs, f.n, sb), SidClass(f.cs, f.n, sa))
+SeacSetCases(name, codes, ow) ==
+  SeacSetWith(name, SeacFont(name), codes, ow, StdEncSid(codes[1]), StdEncSid(codes[2]))
 
 \* ---- family "blend": CFF2 blend / vsindex at a variation tuple
 Reg1 == << << <<<<0, 16384, 16384>>>>, <<<<-16384, -16384, 0>>>> >>,          \* IVD 0: two regions
@@ -414,7 +543,7 @@ BlendCases(regions, tuple, vsmode, insub) ==
   { Case("blend", vsmode \o (IF insub THEN "+subr" ELSE ""), "cff2", prog,
          IF insub THEN <<[i |-> 0, t |-> pair]>> ELSE <<>>,
          IF insub THEN <<[i |-> 1, t |-> first]>> ELSE <<>>,
-         IF insub THEN 2 ELSE 0, IF insub THEN 3 ELSE 0, <<>>, "iso", var, <<>>, TRUE) }
+         IF insub THEN 2 ELSE 0, IF insub THEN 3 ELSE 0, <<>>, NoSeac, var, <<>>, TRUE) }
 
 \* ---- family "misc": glyphs without a path, extreme numbers
 MiscCases ==
@@ -428,20 +557,20 @@ MiscCases ==
       longop(first) == IF first THEN "hvcurveto" ELSE "vhcurveto"
       tiny == <<[mv |-> <<1, -1>>, segs |-> <<SegL(65535, -65535), SegL(ONE + 32768, 0 - 32768)>>]>> IN
   UNION {
-    { Case("misc", "space", k, END(k), <<>>, <<>>, 0, 0, <<>>, "iso", NoVar, <<>>, TRUE) : k \in {"cff", "cff2"} },
-    { Case("misc", "space-w", "cff", <<N(250 * ONE), O("endchar")>>, <<>>, <<>>, 0, 0, <<>>, "iso", NoVar, <<>>, TRUE) },
-    { Case("misc", "hints-only", k, StemsTok(0, 1) \o <<O("hstem")>> \o END(k), <<>>, <<>>, 0, 0, <<>>, "iso",
+    { Case("misc", "space", k, END(k), <<>>, <<>>, 0, 0, <<>>, NoSeac, NoVar, <<>>, TRUE) : k \in {"cff", "cff2"} },
+    { Case("misc", "space-w", "cff", <<N(250 * ONE), O("endchar")>>, <<>>, <<>>, 0, 0, <<>>, NoSeac, NoVar, <<>>, TRUE) },
+    { Case("misc", "hints-only", k, StemsTok(0, 1) \o <<O("hstem")>> \o END(k), <<>>, <<>>, 0, 0, <<>>, NoSeac,
            NoVar, <<>>, TRUE) : k \in {"cff", "cff2"} },
     { Case("misc", "hints-only-w", "cff", <<N(250 * ONE)>> \o StemsTok(0, 1) \o <<O("hstem"), O("endchar")>>,
-           <<>>, <<>>, 0, 0, <<>>, "iso", NoVar, <<>>, TRUE) },
+           <<>>, <<>>, 0, 0, <<>>, NoSeac, NoVar, <<>>, TRUE) },
     { Case("misc", "big", k, App("rmoveto", big[1].mv) \o AppsTokens(Compact(big[1].segs)) \o END(k),
-           <<>>, <<>>, 0, 0, <<>>, "iso", NoVar, big, TRUE) : k \in {"cff", "cff2"} },
+           <<>>, <<>>, 0, 0, <<>>, NoSeac, NoVar, big, TRUE) : k \in {"cff", "cff2"} },
     { Case("misc", "cff2-" \o longop(f) \o "-53-operands", "cff2",
            App("rmoveto", long(f)[1].mv)
            \o App(longop(f), CHOOSE x \in Match(longop(f), long(f)[1].segs) : TRUE),
-           <<>>, <<>>, 0, 0, <<>>, "iso", NoVar, long(f), TRUE) : f \in BOOLEAN },
+           <<>>, <<>>, 0, 0, <<>>, NoSeac, NoVar, long(f), TRUE) : f \in BOOLEAN },
     { Case("misc", "tiny", k, App("rmoveto", tiny[1].mv) \o AppsTokens(Compact(tiny[1].segs)) \o END(k),
-           <<>>, <<>>, 0, 0, <<>>, "iso", NoVar, tiny, TRUE) : k \in {"cff", "cff2"} } }
+           <<>>, <<>>, 0, 0, <<>>, NoSeac, NoVar, tiny, TRUE) : k \in {"cff", "cff2"} } }
 
 ---------------------------------------------------------------------------
 \* Selections: Init picks one, Gen expands it into its cases
@@ -467,6 +596,8 @@ Selections ==
   \cup {[fam |-> "seac", codes |-> cd, charset |-> chs, ow |-> ow, cw |-> cw, chint |-> chint] :
            cd \in {<<65, 194>>, <<245, 194>>, <<105, 251>>}, chs \in {"iso", "custom"},
            ow \in BOOLEAN, cw \in BOOLEAN, chint \in {0, 1, 5}}
+  \cup UNION { {[fam |-> "seacset", font |-> nm, codes |-> cd, ow |-> ow] :
+                    cd \in SeacSetCodes(nm), ow \in (IF SeacFull THEN BOOLEAN ELSE {TRUE})} : nm \in SeacFontNames }
   \cup {[fam |-> "blend", regions |-> Reg1, tuple |-> t, vs |-> vs, insub |-> b] :
            t \in BlendTuples1, vs \in {"none0", "priv1", "op1"}, b \in BOOLEAN}
   \cup {[fam |-> "blend", regions |-> Reg2, tuple |-> t, vs |-> vs, insub |-> b] :
@@ -478,6 +609,7 @@ CasesOf(s) ==
     [] s.fam = "wrap"  -> WrapCases(s.kind, s.pn, s.w, s.h, s.fk)
     [] s.fam = "bias"  -> BiasCases(s.kind, s.cnt, s.g)
     [] s.fam = "seac"  -> SeacCases(s.codes, s.charset, s.ow, s.cw, s.chint)
+    [] s.fam = "seacset" -> SeacSetCases(s.font, s.codes, s.ow)
     [] s.fam = "blend" -> BlendCases(s.regions, s.tuple, s.vs, s.insub)
     [] s.fam = "misc"  -> MiscCases
 
@@ -510,9 +642,23 @@ MachineOK ==
 \* every generated program is well formed, and means exactly the path it was built from
 Halted == Running /\ m.halt # ""
 FormOK ==
-  Halted => /\ m.halt = "done"
+  Halted => /\ IF cs.wf THEN m.halt = "done"
+               ELSE m.halt = "err" /\ m.why = "SeacGlyphMissing" /\ m.cmds = <<>>    \* a seac component the font lacks
             /\ (cs.path # <<>> => m.cmds = PathDenote(cs.path))
             /\ (cs.small => m = Run(FC(cs), InitM(TokBytes(cs.prog))))        \* small step = big step
+
+\* the two readings of a charset agree: the glyph a SID names (SidToGid, what seac uses) is the glyph
+\* whose SID it is (CharsetSids), and a SID the charset does not list names no glyph; the classes
+\* printed with the case say the same as the well-formedness flag
+CharsetAgree(c, sids) ==
+  /\ Len(sids) = c.nGlyphs
+  /\ \A g \in 0 .. c.nGlyphs - 1 : SidToGid(c.charset, c.nGlyphs, sids[g + 1]) = g
+  /\ \A sid \in 1 .. 149 : (SidToGid(c.charset, c.nGlyphs, sid) = -1) = (PosIn(sids, sid, 1) = 0)
+CharsetOK ==
+  (Halted /\ cs.fam = "seac") =>
+     /\ CharsetAgree(cs, TLCEval(CharsetSids(cs.charset, cs.nGlyphs)))
+     /\ cs.wf = (\A k \in 1 .. 2 : cs.scls[k] \notin {"missing-adjacent", "missing-far"})
+     /\ cs.gid < cs.nGlyphs /\ \A k \in 1 .. Len(cs.comps) : cs.comps[k].i \in 1 .. cs.nGlyphs - 1 /\ cs.comps[k].i # cs.gid
 
 \* the number encodings decode to what was encoded (all forms of every number in the program)
 RECURSIVE NumsOK(_)
@@ -533,16 +679,23 @@ GenExact ==
   Halted => /\ ToksExact(cs.prog)
             /\ \A k \in 1 .. Len(m.cmds) : \A j \in 1 .. Len(m.cmds[k].p) : F32Exact(m.cmds[k].p[j])
 
+\* What the replay compares with: the delivered commands of a well-formed program; for a program the
+\* machine rejects (only: a seac component the font lacks) just that it is rejected - which error a
+\* conforming interpreter reports is not prescribed
+ExpOutcome(mm) == IF mm.halt = "done" THEN Outcome(mm)
+                  ELSE [ok |-> FALSE, why |-> "rejected", cmds |-> <<>>, rounded |-> FALSE]
+
 \* Generator: one CASE per halted machine
 EmitCase ==
   Halted =>
     PrintT(<<"CASE", ToJson([fam |-> cs.fam, tag |-> cs.tag, feat |-> cs.feat, kind |-> cs.kind, prog |-> cs.prog,
                              lsubrs |-> cs.lsubrs, gsubrs |-> cs.gsubrs, nL |-> cs.nL, nG |-> cs.nG,
-                             comps |-> cs.comps, charset |-> cs.charset,
+                             comps |-> cs.comps, charset |-> cs.charset, nGlyphs |-> cs.nGlyphs, gid |-> cs.gid,
+                             wf |-> cs.wf, scls |-> cs.scls,
                              regions |-> cs.regions, tuple |-> cs.tuple, dvs |-> cs.dvs,
                              stats |-> [maxStack |-> m.maxStack, maxDepth |-> m.maxDepth, nStems |-> m.nStems,
                                         width |-> m.width # <<>>],
-                             exp |-> Outcome(m)])>>)
+                             exp |-> ExpOutcome(m)])>>)
 
 \* the bias thresholds of TN5176 section 16 (checked by TLC before the exploration starts)
 ASSUME /\ Bias(0) = 107 /\ Bias(1239) = 107 /\ Bias(1240) = 1131
